@@ -151,8 +151,8 @@ Proof. intros H. exact (s13_taken (H (LRec 900) MAbsent two_servers s13_sched s1
 (* ------------------------------------------------------------------ recovery: the hypotheses are satisfiable *)
 Lemma recovers_example :
   (forall q, In q two_servers -> contender q) /\ nth_error two_servers 1 = Some (fresh 2 DServer)
-  /\ recoverable two_servers (LRec 900) (MRec 901) /\ recoverable two_servers (LHalf 900) MAbsent.
+  /\ dead_leftover two_servers (LRec 900) (MRec 901) /\ dead_leftover two_servers (LHalf 900) (MRec 901).
 Proof.
   split; [intros q [<-|[<-|[]]]; left; reflexivity|]. split; [reflexivity|].
-  split; constructor; reflexivity.
+  split; split; cbn; intros p E; inversion E; subst; reflexivity.
 Qed.
